@@ -17,6 +17,29 @@ CLAIMS = {
             "parse_cardinality inverts str(tuple) for every order type. NOT decided: value encoding (CSV/tuple), "
             "dtype text round trip, lxml escaping, equality of documents.",
             "table agreement + tag provenance + ordering typestate + order-type abstract interpretation (ast)"),
+    "C02": ("layout/table/guard clauses only",
+            "Decides: format tables agree with the model classes; every key DictWriter emits is accepted by DictReader "
+            "for the same format; writer, dict reader and RDF reader agree on the root keys and the version constant; "
+            "JSON and YAML share one DictWriter/DictReader path with no format specific transformation; no set-but-falsy "
+            "attribute (uncertainty 0, empty values) is dropped by a truthiness test; date/time serialisers cover the "
+            "non-JSON value types; reader/writer loops carry no state between siblings; parse_cardinality inverts "
+            "list(tuple) for every order type. NOT decided: scalar re-typing by PyYAML/json, whitespace, equality of documents.",
+            "table agreement + def-use (reaching definitions) + truthiness-guard lint + order-type abstract interpretation (ast)"),
+    "C07": ("whole statement except I/O faults of write()",
+            "Decides by dominance/ordering on the writer's CFG: Validation(doc) -> is_error loop -> raise ParserException "
+            "dominates every file creating effect of ODMLWriter.write_file for every backend; fileio.save reaches the file "
+            "system only through it; at every write-mode open() of the package the content is computed before the file is "
+            "opened and only un-failable expressions are evaluated while it is open; nothing that can raise runs after a "
+            "file was written. NOT decided: I/O faults of write() itself; which documents the rules flag (C08).",
+            "CFG dominance (must-pass-through) + compute-before-open typestate + who-may-call (ast)"),
+    "C09": ("whole statement",
+            "Decides exhaustively over order types: format_cardinality returns None / a normal-form pair / ValueError; "
+            "the three cardinality fields are stored only as format_cardinality(v) so a refused assignment keeps the old "
+            "value; _cardinality_validation reports iff count < min or count > max and the three rules pass matching "
+            "field/attribute/rank/id; no code but getters, rules and serialisers reads a cardinality (never enforced); "
+            "both parse_cardinality functions invert the writers' rendering; cardinalities are format keys, readable and "
+            "constructor keywords.",
+            "finite abstract interpretation over order types (odmlsa's own AST evaluator, no import of odml) + provenance of stores + reader-set ownership"),
 }
 
 NOT_APPLICABLE = {
